@@ -10,7 +10,7 @@ import math
 from .geom import enc, well_id
 from .world import COMPONENTS, snap, snap_down
 
-LABELS = [None, None, "", "step", "mix 1", "Transfer µL", "two\nlines", " padded label ", "L" * 40, "100%", "add {M9}", "{}", "50 % (v/v) }"]
+LABELS = [None, None, "", "step", "mix 1", "Transfer µL", "two\nlines", " padded label ", "L" * 40, "100%", "add {M9}", "{}", "50 % (v/v) }", "3 LVH steps", "prep (2 LVH steps)"]
 LIQUID_CLASSES = ["", "Water_DispZmax", "lc 1", "Ethanol"]
 WASHES = [1, 1, 2, 3, 4, "flush", "reuse"]
 PARTS = ["auto", "auto", "source", "destination"]
@@ -97,6 +97,9 @@ class Gen:
             flat = [well_id(rr, c) for rr in range(min(geo.idrows, n_max if n_max >= 8 else n_max))]
             return list(flat), flat, {"wnp": rng.random() < 0.3}
         n = rng.randint(1, max(1, min(n_max, 2 * len(ids))))
+        if rng.random() < 0.1:
+            flat = [rng.choice(ids) for _ in range(n)]
+            return list(flat), flat, {"wtuple": True}
         if distinct:
             n = min(n, len(ids))
             flat = rng.sample(ids, n)
@@ -119,6 +122,14 @@ class Gen:
     def typical(self, h):
         """a volume in (0, h] with a mix of scales."""
         rng = self.rng
+        if self.regime == "free" and rng.random() < 0.12:
+            # numerically special: rounding ties at the third decimal, below the printed resolution, around max_volume
+            m = self.wl_max
+            cands = [0.005, 0.004, 0.0049999, 0.015, 0.025, 1.005, 2.675, 10.125, 0.125, m, 2 * m, m - 0.005,
+                     math.nextafter(m, math.inf), math.nextafter(m, 0.0), m + 0.004, 3 * m + 0.005]
+            cands = [c for c in cands if 0 < c <= h]
+            if cands:
+                return rng.choice(cands)
         r = rng.random()
         if r < 0.15:
             return h
@@ -139,7 +150,7 @@ class Gen:
         for w in wells:
             h = (cur[w] - lim) if direction == "rm" else (lim - cur[w])
             if h <= 0 or self.rng.random() < zero_p:
-                v = 0.0
+                v = 0.0 if self.rng.random() < 0.9 else -0.0
             elif self.rng.random() < 0.1:
                 # land exactly on the limit *as computed by subtraction*, deliberately unverified: whether the
                 # float sum/difference then rounds onto or one ulp past the limit is for the library to decide
